@@ -139,7 +139,7 @@ def build_exec32(wd):
     exe = os.path.join(wd, "exec_ilp32")
     if os.path.exists(exe): return exe
     cmd = ["gcc", "-m32", "-O1", "-w", "-std=gnu99", "-ffreestanding", "-nostdlib", "-static", "-fno-stack-protector", "-fno-pic", "-no-pie",
-           "-I" + os.path.join(HARNESS, "shim32"), "-I" + os.path.join(REPO, "include"), "-I" + HARNESS, os.path.join(HARNESS, "exec32.c")] + \
+           "-I" + os.path.join(HARNESS, "shim32"), "-I" + os.path.join(REPO, "include"), "-I" + HARNESS, os.path.join(HARNESS, "exec32.c"), os.path.join(HARNESS, "exec_ext.c")] + \
           sorted(glob.glob(os.path.join(bind, "*.c"))) + lib_sources() + ["-o", exe]
     r = subprocess.run(cmd, capture_output=True, text=True)
     if r.returncode != 0:
